@@ -62,14 +62,14 @@ def trouble_values(c):
         return [("token", tok) for tok in c.params] + [("token-of-another-enumeration", tok) for tok in FOREIGN_TOKENS if tok not in own]
     if t == "DateTime":
         out = []
-        for k, m in (("utc", 0), ("neg-frac-hour0", -30), ("pos-frac", 345), ("plus14", 840), ("minus12", -720)):
+        for k, m in (("utc", 0), ("neg-frac-hour0", -30), ("pos-frac", 345), ("plus14", 840), ("minus12", -720), ("single-digit-minutes", 65), ("single-digit-minutes", -186)):
             out.append((k, datetime.datetime(2024, 2, 29, 23, 59, 59, 999600, tzinfo=tz(m))))
         out.append(("carry-year", datetime.datetime(1999, 12, 31, 23, 59, 59, 999999, tzinfo=tz(-30))))
         out.append(("sub-ms", datetime.datetime(2000, 1, 1, 0, 0, 0, 499, tzinfo=tz(330))))
         return out
     if t == "Time":
         out = []
-        for k, m in (("utc", 0), ("neg-frac-hour0", -30), ("pos-frac", 345), ("plus14", 840), ("minus12", -720)):
+        for k, m in (("utc", 0), ("neg-frac-hour0", -30), ("pos-frac", 345), ("plus14", 840), ("minus12", -720), ("single-digit-minutes", 65), ("single-digit-minutes", -186)):
             out.append((k, datetime.time(23, 59, 59, 999600, tzinfo=tz(m))))
         out.append(("sub-ms", datetime.time(0, 0, 0, 499, tzinfo=tz(330))))
         return out
@@ -330,7 +330,7 @@ def run(ctx):
         "evaluations": tally.counts.get("evaluations", 0),
         "distinct_nontrivial": tally.counts.get("values", 0),
         "rule": "every class x every data element x trouble values of its type (Decimal: zeros, +/- exponents, normalize(), NaN, sNaN, +-Infinity (as Decimal, float and tuple), floats, 29 and 30 significant "
-        "digits; Integer: 0, -1, +-limit, True; String: markup, non-ASCII, CDATA delimiters, entity text, '&' followed by a word and ';', values spelling entities, at the limit, over it through leading / trailing white space; DateTime/Time: 5 zones with sub-ms parts and carries; "
+        "digits; Integer: 0, -1, +-limit, True; String: markup, non-ASCII, CDATA delimiters, entity text, '&' followed by a word and ';', values spelling entities, at the limit, over it through leading / trailing white space; DateTime/Time: 7 zones (incl. offsets with 5 and 6 minutes) with sub-ms parts and carries; "
         "Bool; every enumeration token, and 8 tokens of other enumerations - accepted there first - which must be refused) set by keyword on the smallest instance; leaf texts of to_etree() checked against the lexical rule, then all 6 wire forms read by the "
         "strict reference reader (well-formed, entities only, same data); ElementList classes: invalid members added through append/insert/extend/+= must be refused when written; "
         "distinct_nontrivial = (class, element, value) triples",
